@@ -4,6 +4,11 @@ mod node;
 mod sut;
 
 fn main() {
+    // harness-side tuning of the SQLite library only: without it every allocation of every connection
+    // takes one process-wide mutex (memory statistics), which serialises the worker threads
+    unsafe {
+        sqlite3_sys::sqlite3_config(sqlite3_sys::SQLITE_CONFIG_MEMSTATUS, 0 as std::ffi::c_int);
+    }
     let ctx = mc_core::Ctx::from_args();
     mc_core::quiet_panics();
     match ctx.property.as_str() {
